@@ -1,6 +1,7 @@
 --------------------------- MODULE RecordLayerGen ---------------------------
 (* Behaviour generator for RecordLayer (design point WMode = atomic, RMode = full): a history     *)
-(* variable records every step - W: a record is written, C: the transport hands the reader n      *)
+(* variable records every step - W: a record is written, F: a Write fails after `sent` bytes were  *)
+(* accepted by the transport (MaxFail > 0), C: the transport hands the reader n                   *)
 (* bytes, R: the Read call returns, with the value the specification expects - and every maximal  *)
 (* behaviour (MaxRec records written; everything in flight consumed and returned, or the reader   *)
 (* stopped on an oversize record) is printed as JSON.  BFS enumerates every chunking x every      *)
@@ -15,6 +16,10 @@ GInit == RLInit /\ hist = <<>>
 GWrite == \E w \in 1..NW, n \in Lens :
             /\ WriteRec(w, n)
             /\ hist' = Append(hist, [a |-> "W", w |-> w, k |-> cnt'[w], len |-> n, rec |-> Len(recs')])
+GFail == \E w \in 1..NW, n \in Lens : \E p \in 0..(H + n - 1) :
+            /\ WriteFail(w, n, p)
+            /\ hist' = Append(hist, [a |-> "F", w |-> w, k |-> cnt'[w], len |-> n, sent |-> p,
+                                     rec |-> IF p = 0 THEN 0 ELSE Len(recs')])
 GChunk == \E n \in 1..(H + Buf) :
             /\ Chunk(n)
             /\ hist' = Append(hist, [a |-> "C", n |-> n])
@@ -22,12 +27,12 @@ GReturn == /\ Return
            /\ LET o == out'[Len(out')] IN
               hist' = Append(hist, [a |-> "R", rec |-> Len(out'), err |-> o.err, len |-> Len(o.msg)])
 
-GNext == GWrite \/ GChunk \/ GReturn
+GNext == GWrite \/ GFail \/ GChunk \/ GReturn
 GSpec == GInit /\ [][GNext]_gvars
 
-Terminal == /\ Len(recs) = MaxRec
+Terminal == /\ Calls = MaxRec \/ broken
             /\ \/ phase = "dead"
-               \/ wire = <<>> /\ phase = "hdr" /\ need = H
+               \/ wire = <<>> /\ phase \in {"hdr", "body"} /\ ~ReturnEnabled
 
 Emit == Terminal => PrintT(<<"BEHAVIOUR", ToJson([h |-> H, buf |-> Buf, steps |-> hist])>>)
 =============================================================================
